@@ -83,9 +83,120 @@ def digits(n):
     return len(str(abs(n))) if n else 0
 
 
+def build(log):
+    from . import fcommon, textcommon
+    ok, out = fcommon.build(log)
+    if not ok:
+        return ok, out
+    return textcommon.build(log)
+
+
+def text_side(fails):
+    """Text / Append / Format / String are read-only: the operand's full raw state (mantissa words included) must be
+    the same after the call (text driver, harness/tdriver)."""
+    import os, random
+    import vlib
+    from . import C13
+    rng = random.Random(int(os.environ.get("VERIF_SEED", "20261001")) + 13)
+    tier = os.environ.get("VERIF_TIER", "quick")
+    tcs = [c for c in C13.gen(rng, "quick") if c["family"] in ("text", "f-leading-digit", "f-below-position", "format")][:1500 if tier == "quick" else 3000]
+    # operands with low zero words (values shorter than their precision)
+    for c in tcs:
+        for v in c["vars"]:
+            if v.form == 1 and rng.random() < 0.5:
+                k = rng.randint(1, 3)
+                v.words = [0] * k + list(v.words)
+                v.prec = max(v.prec, 19 * len(v.words) - 18)
+    for i, c in enumerate(tcs):
+        c["pid"] = "t%d" % i
+        c["line"] = " ; ".join([v.item() for v in c["vars"]] + ["O " + o for o in c["ops"]])
+    text = "\n".join("%s ; %s" % (c["pid"], c["line"]) for c in tcs) + "\n"
+    rc, out, dt = vlib.run_side(os.path.join(vlib.BUILD, "tdriver"), text, timeout=600)
+    JUDGE_STATS["text_driver_cases"] = len(tcs)
+    JUDGE_STATS["text_operand_states_compared"] = 0
+    if rc != 0:
+        fails.append((tcs[0], "text driver exited with status %d" % rc, dict(implementation=out[-1500:])))
+        return
+    byid = {c["pid"]: c for c in tcs}
+    bad = set()
+    for line in out.splitlines():
+        try:
+            key, opn, outcome, res, vs = vlib.parse_obs(line)
+        except Exception:
+            continue
+        c = byid.get(key[0])
+        if c is None or key[0] in bad or opn in ("Parse", "Scan", "SetString", "UnmarshalText", "RoundTrip"):
+            continue
+        prev = [C01.dv_obs(v) for v in c["vars"]]
+        if len(vs) != len(prev):
+            continue
+        for k, (a, b) in enumerate(zip(prev, vs)):
+            JUDGE_STATS["text_operand_states_compared"] += 1
+            if a != b and not (a[0] != "1" and a[:5] == b[:5]):
+                bad.add(key[0])
+                fails.append((c, "read-only method %s modified its operand %d: %s -> %s (text driver build/tdriver)" % (opn, k, a[:8], b[:8]),
+                              dict(implementation=line[:1500], step=key[1], driver="tdriver")))
+                break
+
+
+def float_side(fails):
+    import os, random, itertools
+    import vlib
+    from . import C05, C15
+    rng = random.Random(int(os.environ.get("VERIF_SEED", "20261001")) + 9)
+    tier = os.environ.get("VERIF_TIER", "quick")
+    fc = list(itertools.islice(C05.gen(rng, "quick"), 900 if tier == "quick" else 3000))
+    fc += [c for c in C15.gen(rng, "quick") if c["family"].startswith(("f64", "setfloat"))][:600]
+    for i, c in enumerate(fc):
+        c["pid"] = "f%d" % i
+        c["line"] = " ; ".join([v.item() for v in c["vars"]] + ["O " + o for o in c["ops"]])
+    text = "\n".join("%s ; %s" % (c["pid"], c["line"]) for c in fc) + "\n"
+    rc, out, dt = vlib.run_side(os.path.join(vlib.BUILD, "fdriver"), text, timeout=600)
+    JUDGE_STATS["float_driver_cases"] = len(fc)
+    JUDGE_STATS["float_attr_rules_checked"] = 0
+    if rc != 0:
+        fails.append((fc[0], "float driver exited with status %d" % rc, dict(implementation=out[-1500:])))
+        return
+    byid = {c["pid"]: c for c in fc}
+    state, bad = {}, set()
+    for line in out.splitlines():
+        try:
+            key, opn, outcome, res, vs = vlib.parse_obs(line)
+        except Exception:
+            continue
+        c = byid.get(key[0])
+        if c is None or key[0] in bad:
+            continue
+        prev = state.get(key[0]) or [C01.dv_obs(v) for v in c["vars"]]
+        t = c["ops"][key[1]].split() if key[1] < len(c["ops"]) else [opn]
+        msg = None
+        if outcome == "ok" and opn in ("Sqrt", "SetFloat64", "SetFloat") and len(vs) == len(prev):
+            zi = int(t[1])
+            z0, z1 = prev[zi], vs[zi]
+            JUDGE_STATS["float_attr_rules_checked"] += 1
+            if z1[3] != z0[3]:
+                msg = "receiver mode %s, want %s" % (z1[3], z0[3])
+            elif int(z0[2]) != 0 and z1[2] != z0[2]:
+                msg = "receiver precision %s, want %s" % (z1[2], z0[2])
+            elif opn == "Sqrt" and int(z0[2]) == 0 and z1[2] != prev[int(t[2])][2]:
+                msg = "receiver precision %s, want the operand's %s" % (z1[2], prev[int(t[2])][2])
+            for k, (a, b) in enumerate(zip(prev, vs)):
+                if k != zi and a != b and not (a[0] != "1" and a[:5] == b[:5]):
+                    msg = "variable %d, which is not the receiver, changed" % k
+        if msg:
+            bad.add(key[0])
+            fails.append((c, "attribute rule violated at step %d (%s; float driver build/fdriver): %s" % (key[1], opn, msg),
+                          dict(implementation=line[:1500], step=key[1], driver="fdriver")))
+        if len(vs) == len(prev):
+            state[key[0]] = vs
+
+
 def judge(cases, g, m):
     fails = []
     JUDGE_STATS["receiver_rules_checked"] = 0
+    if not any(c.get("family") == "replay" for c in cases):
+        float_side(fails)
+        text_side(fails)
     JUDGE_STATS["operand_states_compared"] = 0
     for c in cases:
         if "vars" not in c:
